@@ -7,7 +7,7 @@ import z3
 from engines import symrel as SR
 from harness import planlib as PL
 
-SCHEMA = {'t1': ['id', 'a', 'b'], 't2': ['id', 'c'], 'int1': ['id', 'x'], 't3': ['id', 'a.b', 'c d', 'int1.e']}
+SCHEMA = {'t1': ['id', 'a', 'b'], 't2': ['id', 'c'], 'int1': ['id', 'x'], 't3': ['id', 'a.b', 'c d', 'int1.e'], 'pred2': ['id', 'p2'], 'pred': ['id', 'p']}
 FAMILY = [
     "SELECT a FROM int1.t1",
     "SELECT * FROM int1.t1 WHERE a > 1",
@@ -112,7 +112,19 @@ UNQUALIFIED = [
     "WITH w AS (SELECT * FROM t2), t2 AS (SELECT * FROM w WHERE c > 0) SELECT * FROM t2",
     "WITH t2 AS (SELECT * FROM t2 WHERE c > 0) SELECT t1.a, t2.c FROM t1 JOIN t2 ON t1.id = t2.id",
 ]
-FAMILY = FAMILY + UNQUALIFIED
+# tables addressed as integration.schema.table - also when the schema is named like a project / another integration and the table like a model
+# of that project: the first part alone decides where the name resolves to
+SCHEMA_QUALIFIED = [
+    "SELECT * FROM int1.sch.t1 WHERE a > 1",
+    "SELECT p2 FROM int1.proj.pred2 WHERE p2 > 1",
+    "SELECT * FROM int1.proj.pred2",
+    "SELECT p FROM int1.mindsdb.pred WHERE id = 1",
+    "SELECT a.p2, b.c FROM int1.proj.pred2 AS a JOIN int1.t2 AS b ON a.id = b.id",
+    "SELECT p2 FROM int1.proj.pred2 UNION SELECT c FROM int1.t2",
+    "SELECT a FROM int1.int2.t1 WHERE a IN (SELECT p FROM int1.mindsdb.pred)",
+    "SELECT a FROM INT1.Proj.t1",
+]
+FAMILY = FAMILY + UNQUALIFIED + SCHEMA_QUALIFIED
 
 
 def single_fetch(plan):
